@@ -682,18 +682,21 @@ class Writer:
             inf = sorted(c.instance_fields, key=lambda f: self.ref_index(f.ref))
             dm = sorted(c.direct_methods, key=lambda x: self.ref_index(x.ref))
             vm = sorted(c.virtual_methods, key=lambda x: self.ref_index(x.ref))
-            out = uleb(len(sf)) + uleb(len(inf)) + uleb(len(dm)) + uleb(len(vm))
+            cdp = o.get("class_data_pad")    # callable -> redundant groups for the next uleb128 of a class_data_item (valid, non-minimal; rewriting
+            # tools reserve fixed-width five-byte slots for offsets they patch later), or None
+            cp = (lambda: cdp()) if cdp else (lambda: 0)
+            out = uleb(len(sf), cp()) + uleb(len(inf), cp()) + uleb(len(dm), cp()) + uleb(len(vm), cp())
             for lst in (sf, inf):
                 prev = 0
                 for f in lst:
                     i = self.ref_index(f.ref)
-                    out += uleb(i - prev) + uleb(f.access)
+                    out += uleb(i - prev, cp()) + uleb(f.access, cp())
                     prev = i
             for lst in (dm, vm):
                 prev = 0
                 for mt in lst:
                     i = self.ref_index(mt.ref)
-                    out += uleb(i - prev) + uleb(mt.access) + uleb(code_off.get(id(mt), 0))
+                    out += uleb(i - prev, cp()) + uleb(mt.access, cp()) + uleb(code_off.get(id(mt), 0), cp())
                     prev = i
             buf += out
             cnt += 1
